@@ -1,7 +1,7 @@
 # executed by tools/mkmanifest.py: one check(...) per claimed property (id, level, what the level means here, trusted base, technique, design ref)
 COMMON_NOTE = (
     " Shared trusted base: Hypothesis 6.168 and CPython; the harness maps nodes to labels by id() only; every generated-case shard alternates "
-    "ANYTREE_ASSERTIONS=0/1; a case that does not terminate within 15 s is reported as a violation (clause non-termination); "
+    "ANYTREE_ASSERTIONS=0/1; a case that does not terminate within 15 s is reported as a violation (clause non-termination); a run stops as soon as one shard has reported a violation; "
     "tree-based checks also run on node classes with their own __eq__/__hash__/__bool__/__len__ and on classes derived from list/tuple."
 )
 
@@ -32,7 +32,7 @@ check(
 check(
     "C04",
     "exploration",
-    "Every node of every ordered tree shape up to 7 (quick) / 10 (thorough) nodes, for ten node classes (incl. SymlinkNodes whose targets sit in another or in the same tree; link, target, target's root and the link again are asked in turn), is checked against definitions recomputed from .parent/.children only (identity comparison); commonancestors on all pairs/triples and degenerate argument lists; Hypothesis trees up to 40 nodes and mutation histories with all attributes re-checked after every step; the upward-looking attributes also on chains of 700-3000 nodes.",
+    "Every node of every ordered tree shape up to 7 (quick) / 10 (thorough) nodes, for eleven node classes (incl. nodes whose data attributes are named like the read-only properties - size, depth, path ... -, SymlinkNodes whose targets sit in another or in the same tree; link, target, target's root and the link again are asked in turn), is checked against definitions recomputed from .parent/.children only (identity comparison); commonancestors on all pairs/triples and degenerate argument lists; Hypothesis trees up to 40 nodes and mutation histories with all attributes re-checked after every step; the upward-looking attributes also on chains of 700-3000 nodes.",
     "Trusts the recomputation in vf/props/c04.py; downward-recursive attributes are not exercised beyond 60 nodes (interpreter recursion limit)." + COMMON_NOTE,
     "bounded-exhaustive shapes + Hypothesis trees and mutation histories vs. definitions recomputed from the links",
     "DESIGN.md sections 4 C04, 9.1",
@@ -40,7 +40,7 @@ check(
 check(
     "C05",
     "exploration",
-    "Every start node of every shape up to 8 (quick) / 11 (thorough) nodes for six node classes, Hypothesis shapes up to 60 nodes re-checked after up to three mutations, and trunks of 270-400 nodes with a crown on top: each of the five iterators is compared element-wise (identity) with an independently written reference order, plus exactly-once, group/tuple, no-mutation clauses; abandoned and interleaved iterations must not influence later ones, and an iterator object used in two portions (loop left early, next(), islice, zip, sub-iterator from iter(), then resumed) hands out the full sequence exactly once and stays exhausted.",
+    "Every start node of every shape up to 8 (quick) / 11 (thorough) nodes for six node classes, Hypothesis shapes up to 60 nodes re-checked after up to three mutations, and trunks of 270-400 nodes with a crown on top: each of the five iterators is compared element-wise (identity) with an independently written reference order, plus exactly-once, group/tuple, no-mutation clauses; abandoned and interleaved iterations must not influence later ones, and an iterator object used in two portions (loop left early, next(), islice, zip, sub-iterator from iter(), then resumed) hands out the full sequence exactly once and stays exhausted; one node class inherits unrelated class attributes named is_leaf/depth/height/... from a base listed before NodeMixin (traversal is defined by .children alone).",
     "Trusts the reference orders in vf/refs.py (recursion / explicit queue over .children)." + COMMON_NOTE,
     "bounded-exhaustive shape enumeration + Hypothesis random trees vs. reference traversal orders",
     "DESIGN.md sections 4 C05, 9.1, 9.2",
@@ -48,7 +48,7 @@ check(
 check(
     "C06",
     "exploration",
-    "The complete product start node x stop subset x filtered-out subset x maxlevel is enumerated on every shape with <= 5 (quick) / <= 6 (thorough; 7-node shapes with the root as start) nodes for all five iterators, keyword and positional argument forms, both ways of passing empty predicates, after an abandoned iteration; Hypothesis adds trees up to 25 nodes with mutation phases. Results are compared with the reference 'admitted set' restriction of the unrestricted order. Exhaustive inside the bound, sampled beyond.",
+    "The complete product start node x stop subset x filtered-out subset x maxlevel is enumerated on every shape with <= 5 (quick) / <= 6 (thorough; 7-node shapes with the root as start) nodes for all five iterators, keyword and positional argument forms, both ways of passing empty predicates, predicates returning bools, 1/0, 'x'/'' or [0]/None, after an abandoned iteration and after iterations that ended in an exception raised by a predicate; Hypothesis adds trees up to 25 nodes with mutation phases, iterator objects consumed in two portions, and iterator objects created before a change of the tree or of the predicates' answers and consumed afterwards. Results are compared with the reference 'admitted set' restriction of the unrestricted order. Exhaustive inside the bound, sampled beyond.",
     "Trusts the admitted-set reference in vf/refs.py; predicates are pure functions of node identity." + COMMON_NOTE,
     "bounded-exhaustive option product + Hypothesis vs. admitted-set reference restriction",
     "DESIGN.md sections 4 C06, 9.1",
@@ -56,7 +56,7 @@ check(
 check(
     "C07",
     "exploration",
-    "Trees up to 12 nodes with adversarial names (regex/wildcard metacharacters, the other separators, case variants of sibling names), six separators, two path attributes, all ignorecase/relax combinations, resolver objects re-used for the whole process: for every ordered node pair the absolute path and the relative path spelled from Walker.walk must resolve to the target; generated component sequences must give exactly the node or exception class (and exc.node) a reference interpreter of the statement gives; relaxed mode returns None exactly there and never raises; in half of the generated cases each path text is first used as a glob() pattern (class-level pattern cache). All short paths over a 7-symbol alphabet are enumerated on small shapes (with and without duplicate names); cases are re-checked after moves, detaches and renames; the thorough tier adds 16 atheris campaigns on the same strategy and oracle.",
+    "Trees up to 12 nodes with adversarial names (regex/wildcard metacharacters, the other separators, case variants of sibling names), six separators, two path attributes, all ignorecase/relax combinations, resolver objects re-used for the whole process (built with keyword arguments, positionally, with only the non-default options, and by a subclass that sets the option attributes after the base constructor): for every ordered node pair the absolute path and the relative path spelled from Walker.walk must resolve to the target; generated component sequences must give exactly the node or exception class (and exc.node) a reference interpreter of the statement gives (ChildResolverError.child must be the failing component); relaxed mode returns None exactly there and never raises; in half of the generated cases each path text is first used as a glob() pattern (class-level pattern cache). All short paths over a 7-symbol alphabet are enumerated on small shapes (with and without duplicate names); cases are re-checked after moves, detaches and renames; the thorough tier adds 16 atheris campaigns on the same strategy and oracle.",
     "Trusts vf/resolver_ref.py ref_get; names never contain separator characters and are never '', '.', '..'; special-casing characters are not generated. Repaired defect D3 (fix: 093226e) is replayed as regression input." + COMMON_NOTE,
     "Hypothesis trees/names/paths + exhaustive short paths (+ atheris campaigns in the thorough tier) vs. reference path interpreter and two round trips",
     "DESIGN.md sections 4 C07, 9.1",
@@ -80,7 +80,7 @@ check(
 check(
     "C10",
     "exploration",
-    "Generated trees of AnyNode/Node/a user NodeMixin class/container-like and equal-comparing AnyNode subclasses with arbitrary attribute dictionaries (non-identifier, underscore and property-named keys; None, numbers, text, bytes, tuples, sets, nested containers, opaque objects) and every attriter/childiter (lists, generators, one-shot iterators, filters that remove all children)/dictcls/maxlevel choice: export equals an independent serialisation (key order, mapping type, 'children' only when non-empty), import_(export(t)) is isomorphic, export(import_(d)) equals d up to empty 'children' lists for generated nested dictionaries with the 'children' key at any position, and neither call modifies its argument (key order included). The option product is enumerated on all shapes <= 4/6 nodes.",
+    "Generated trees of AnyNode/Node/a user NodeMixin class/container-like and equal-comparing AnyNode subclasses with arbitrary attribute dictionaries (non-identifier, underscore and property-named keys; None, numbers, text, bytes, tuples, sets, nested containers, opaque objects) and every attriter/childiter (lists, generators, one-shot iterators, filters that remove all children)/dictcls/maxlevel choice: export equals an independent serialisation (key order, mapping type, 'children' only when non-empty), import_(export(t)) is isomorphic, export(import_(d)) equals d up to empty 'children' lists for generated nested dictionaries with the 'children' key at any position, and neither call modifies its argument (key order included); a long-lived exporter whose earlier exports were aborted by an exception from attriter/childiter exports the same data as before. The option product is enumerated on all shapes <= 4/6 nodes.",
     "Trusts the reference serialiser in vf/props/c10.py; attribute keys avoid 'parent', 'children' and constructor parameter names; bookkeeping = the mixins' name-mangled private attributes; immutability judged on public state." + COMMON_NOTE,
     "Hypothesis attributed trees and nested dictionaries + enumerated option product vs. reference serialiser and two round trips",
     "DESIGN.md sections 4 C10, 9.1",
@@ -96,7 +96,7 @@ check(
 check(
     "C12",
     "exploration",
-    "The complete product start x stop subset x filtered-out subset x maxlevel (None, 0..height+2) on every shape <= 5 (quick) / <= 6 (thorough) nodes for DotExporter, UniqueDotExporter and RenderTreeGraph with quote/backslash/newline/non-ASCII names (incl. backslash followed by n/l/r), plus Hypothesis trees with colliding names, custom name/attribute/edge functions, options, indent, graph/name, to_dotfile and mutation phases: header, option lines, node statements in reference pre-order with recoverable escaped identifiers, edge statements as a multiset equal to the declared parent-child pairs, closing brace. The same exporter object is iterated again interleaved, after the tree has grown and after the admitted set has shrunk; identifiers must stay stable.",
+    "The complete product start x stop subset x filtered-out subset x maxlevel (None, 0..height+2) on every shape <= 5 (quick) / <= 6 (thorough) nodes for DotExporter, UniqueDotExporter and RenderTreeGraph with quote/backslash/newline/non-ASCII names (incl. backslash followed by n/l/r), plus Hypothesis trees with colliding names, custom name/attribute/edge functions, options, indent, graph/name, to_dotfile and mutation phases: header, option lines, node statements in reference pre-order with recoverable escaped identifiers, edge statements as a multiset equal to the declared parent-child pairs, closing brace. The same exporter object is iterated again interleaved, after iterations aborted by an exception from any user callback, after the tree has grown and after the admitted set has shrunk; identifiers must stay stable; to_dotfile of the configured exporter is compared byte-wise; filter_/stop results are judged by truth value.",
     "Defect D7 repaired (fix: 3fd3770). KF-C12-1 (edge to a directly stopped child, pinned by the repository's reference files) is recognised only by its signature: declared parent, depth in range, stop(c) and filter_(c) true; any other undeclared edge end is a violation." + COMMON_NOTE,
     "bounded-exhaustive option product + Hypothesis names/functions vs. parse-back of emitted lines against the declared sub-forest",
     "DESIGN.md sections 4 C12, 9.1",
@@ -104,7 +104,7 @@ check(
 check(
     "C13",
     "exploration",
-    "Same product, generators and re-iteration phases as C12 for MermaidExporter: header, option lines, node lines indent+id+nodefunc in reference pre-order, default label escaping, distinct and stable identifiers (custom functions may return the empty string for some nodes/edges), edge lines as a multiset equal to the declared parent-child pairs, to_file fence.",
+    "Same product, generators and re-iteration phases as C12 for MermaidExporter: header, option lines, node lines indent+id+nodefunc in reference pre-order, default label escaping, distinct and stable identifiers (custom functions may return the empty string for some nodes/edges; iterations aborted by an exception from any user callback must leave nothing behind on the exporter; filter_/stop results are judged by truth value), edge lines as a multiset equal to the declared parent-child pairs, to_file fence.",
     "Defect D7 repaired (fix: b21f505). Default identifiers are read off the node lines and must be plain identifier tokens." + COMMON_NOTE,
     "bounded-exhaustive option product + Hypothesis names/functions vs. expected lines built from the declared sub-forest",
     "DESIGN.md sections 4 C13, 9.1",
@@ -136,7 +136,7 @@ check(
 check(
     "C17",
     "exploration",
-    "Node classes are generated: any subset of the 12 comparison/hash/bool/container special methods with adversarial-constant, raising or unhashable behaviour on five bases (Node, a NodeMixin class, a slotted LightNodeMixin class, a Node that is also a list, a two-field tuple record), optionally mixed with plain nodes in one forest. A generated mutation history (incl. constructor calls with such nodes as parent=) and afterwards every read-only API (navigation, util incl. single-argument commonancestors, iterators, search, Walker, Resolver get/glob, RenderTree, Dot/UniqueDot/Mermaid/Dict/Json exporters) run on the generated class and on a plain class; label-mapped results and exception classes must be equal and the generated methods' invocation counters must stay 0.",
+    "Node classes are generated: any subset of the 12 comparison/hash/bool/container special methods with adversarial-constant, raising or unhashable behaviour on five bases (Node, a NodeMixin class, a slotted LightNodeMixin class, a Node that is also a list, a two-field tuple record), optionally registered as virtual subclasses of the collections.abc container classes and optionally mixed with plain nodes in one forest. A generated mutation history (incl. constructor calls with such nodes as parent=) and afterwards every read-only API (navigation, util incl. single-argument commonancestors, iterators, search, Walker, Resolver get/glob, RenderTree, Dot/UniqueDot/Mermaid/Dict/Json exporters) run on the generated class and on a plain class; label-mapped results and exception classes must be equal and the generated methods' invocation counters must stay 0.",
     "Differential oracle (plain class of the same ordinary base); the harness touches nodes only by identity. Defects D6a and D6b repaired (fix: e819994, bb01c9a)." + COMMON_NOTE,
     "generated adversarial classes x Hypothesis histories, differential vs. plain class + never-invoked counters",
     "DESIGN.md sections 4 C17, 9.1",
@@ -144,7 +144,7 @@ check(
 check(
     "C18",
     "exploration",
-    "The same generated history (arguments, fault plans incl. tree-editing hooks, initial forest) is applied in lock-step to a NodeMixin universe and a slotted LightNodeMixin universe (ordinary classes and equal-comparing classes): outcome class, forest and hook log are compared after every call, the navigation attributes and util helpers of every node before the first and after every call (every third generated history stays read-free until its end), and every navigation attribute, util helper, iterator (with restrictions), search, Walker, Resolver.get/glob and RenderTree result afterwards. Enumerated over all forests N <= 3/4 x calls x single fault positions, plus Hypothesis histories.",
+    "The same generated history (arguments, fault plans incl. tree-editing hooks - per-node hooks that detach a sibling, *_children hooks that re-file a child under another node -, initial forest) is applied in lock-step to a NodeMixin universe and a slotted LightNodeMixin universe (ordinary classes and equal-comparing classes): outcome class, forest and hook log are compared after every call, the navigation attributes and util helpers of every node before the first and after every call (every third generated history stays read-free until its end), and every navigation attribute, util helper, iterator (with restrictions), search, Walker, Resolver.get/glob and RenderTree result afterwards. Enumerated over all forests N <= 3/4 x calls x single fault positions, plus Hypothesis histories.",
     "Pure differential check (no reference model); only tree-node arguments; histories are cut at a RecursionError outcome." + COMMON_NOTE,
     "lock-step differential testing of the two mixins over enumerated single steps and Hypothesis histories",
     "DESIGN.md sections 4 C18, 9.1",
@@ -152,7 +152,7 @@ check(
 check(
     "C19",
     "exploration",
-    "Every shape <= 5/6 nodes x 8 class schemes (Node, mixed NodeMixin classes, a NodeMixin class with inherited __slots__ besides its __dict__, user SymlinkNodeMixin classes keeping target in the dictionary, a slot or behind a property, trees with SymlinkNodes whose targets are in the same tree, in a second tree or other links, falsy/equal-comparing/container-like classes, slotted and dict-carrying LightNodeMixin classes) x every entry node x every applicable pickle protocol and copy.deepcopy, plus Hypothesis trees <= 30 nodes: the copy must be isomorphic (shape, order, classes, attribute values), the result must occupy the entry's position, share no object with the original, satisfy the C01 invariant (also after a fresh node was attached below a copied leaf), keep link targets pointing at the corresponding copied node, and mutations of either side must not show on the other.",
+    "Every shape <= 5/6 nodes x 8 class schemes (Node, mixed NodeMixin classes, a NodeMixin class with inherited __slots__ besides its __dict__, user SymlinkNodeMixin classes keeping target in the dictionary, a slot or behind a property, trees with SymlinkNodes whose targets are in the same tree, in a second tree or other links, falsy/equal-comparing/container-like classes, slotted and dict-carrying LightNodeMixin classes) x every entry node x every applicable pickle protocol and copy.deepcopy, plus Hypothesis trees <= 30 nodes, in part rearranged by moves before they are copied (inner nodes that lost all children again): the copy must be isomorphic (shape, order, classes, attribute values), the result must occupy the entry's position, share no object with the original, satisfy the C01 invariant (also after a fresh node was attached below each childless node of the copy in turn), keep link targets pointing at the corresponding copied node, and mutations of either side must not show on the other.",
     "Protocols 0/1 only for classes without __slots__; trees stay far below pickle/deepcopy recursion limits." + COMMON_NOTE,
     "bounded-exhaustive shapes x class schemes x entry x protocol + Hypothesis vs. isomorphism/position/disjointness/consistency/independence oracle",
     "DESIGN.md sections 4 C19, 9.1",
@@ -160,7 +160,7 @@ check(
 check(
     "C20",
     "exploration",
-    "Histories over a growing universe of plain nodes (Node, AnyNode, a Node subclass with a property-backed attribute) and links (SymlinkNode with constructor keywords, SymlinkNodeMixin subclasses that keep `target` in the instance dictionary, in a slot, behind a read-only property or as a class-level attribute; links to links, same or other tree) with structural calls and attribute writes (values incl. None/False/0; names near 'parent'/'children'/'target' and dunder-style names) on links and targets: after every step the whole node x attribute-name table read through getattr is compared with an attribute-store model, every node's navigation attributes with the C04 definitions at its own position, and the whole forest with the closed-form structural model.",
+    "Histories over a growing universe of plain nodes (Node, AnyNode, a Node subclass with a property-backed attribute) and links (SymlinkNode with constructor keywords, SymlinkNodeMixin subclasses that keep `target` in the instance dictionary, in a slot, behind a read-only property or as a class-level attribute; links to links, same or other tree) with structural calls and attribute writes (values incl. None/False/0; names near 'parent'/'children'/'target' and dunder-style names) on links and targets, and assignments to names that exist on the link's class (judged on the write side): after every step the whole node x attribute-name table read through getattr is compared with an attribute-store model, every node's navigation attributes with the C04 definitions at its own position, and the whole forest with the closed-form structural model.",
     "Attribute names exclude the node API and names Python itself looks up on instances; after a refused structural call only exception class and link invariant are judged (rollback is C03). Defect D9 repaired (fix: 1363094)." + COMMON_NOTE,
     "Hypothesis stateful histories + systematic link-chain scripts vs. attribute-store model and structural model",
     "DESIGN.md sections 4 C20, 9.1",
